@@ -2,6 +2,7 @@ package main
 
 import (
 	"fmt"
+	"regexp"
 	"strings"
 	"sync"
 	"time"
@@ -120,6 +121,8 @@ func variants(r *Rig, op gen.GenOp, rng interface{ Intn(int) int }) []gen.GenOp 
 	return out
 }
 
+var rootSelRe = regexp.MustCompile(`q\d_\d(\([^)]*\))? \{ `)
+
 func stripQueryName(q string) string {
 	q = strings.TrimSpace(q)
 	rest := strings.TrimPrefix(q, "query")
@@ -171,16 +174,46 @@ func driveC14(seed int64, tier, out, replay string) {
 			if c.Hand {
 				pool = []gen.GenOp{{Query: "query { x }"}, {Query: "mutation { x }"}, {Query: "query Named { x }"}, {Query: "{ me { name phone } }"}, {Query: "{ me { name } }"},
 					{Query: "query($a: Int) { me { phone(a: $a) } }", Variables: map[string]interface{}{"a": 1}}, {Query: "query($a: Int) { me { phone(a: $a) } }", Variables: map[string]interface{}{"a": 2}},
+					{Query: "query A { x } query B { me { name phone } }", OperationName: "A", Kind: "multi_operation"}, {Query: "query A { x } query B { me { name phone } }", OperationName: "B", Kind: "multi_operation"},
+					{Query: "{ me { id name phone } }", Kind: "explicit_id"}, {Query: "{ humans { phone } }"}, {Query: "{ humans { id phone } }", Kind: "explicit_id"},
 					{Query: "{ me { ...F1 } } fragment F1 on Human { name phone }"}, {Query: "{ me { ...F1 } } fragment F1 on Human { name }"}, {Query: "mutation Named { x }"}}
 			} else {
 				orng := hx.NewRand(c.WorldSeed + 1)
+				var plainOps []gen.GenOp
 				for k := 0; k < 4; k++ {
 					op := gen.Operation(orng, plain.Merged, opOptionsFor("inD01", w))
 					pool = append(pool, variants(plain, op, orng)...)
+					if strings.HasPrefix(op.Query, "query") && len(op.Variables) == 0 && !strings.Contains(op.Query, "fragment") {
+						plainOps = append(plainOps, op)
+					}
+					// the same operation with the helper id written out by the client at the first Node-typed root field
+					if m := rootSelRe.FindStringIndex(op.Query); m != nil && !strings.HasPrefix(op.Query[m[1]:], "id ") {
+						v := gen.GenOp{Query: op.Query[:m[1]] + "id " + op.Query[m[1]:], Variables: op.Variables, OperationName: op.OperationName, Kind: "explicit_id"}
+						if selectedOp(plain.Merged, v) != nil {
+							pool = append(pool, v)
+						}
+					}
+				}
+				if len(plainOps) >= 2 {
+					doc := strings.Replace(stripQueryName(plainOps[0].Query), "query", "query DocA", 1) + " " + strings.Replace(stripQueryName(plainOps[1].Query), "query", "query DocB", 1)
+					pool = append(pool, gen.GenOp{Query: doc, OperationName: "DocA", Kind: "multi_operation"}, gen.GenOp{Query: doc, OperationName: "DocB", Kind: "multi_operation"})
+				}
+			}
+			// ordered pairs that need each other: an operation, then the text its sanitised form would have
+			var pairs [][2]gen.GenOp
+			for _, a := range pool {
+				for _, b := range pool {
+					if b.Kind == "explicit_id" && strings.Replace(b.Query, "id ", "", 1) == a.Query {
+						pairs = append(pairs, [2]gen.GenOp{a, b})
+					}
 				}
 			}
 			n := 6 + rng.Intn(10)
 			big := 0
+			if len(pairs) > 0 && rng.Intn(2) == 0 {
+				p := pairs[rng.Intn(len(pairs))]
+				c.History = append(c.History, c14Event{Op: p[0]}, c14Event{Op: p[1]})
+			}
 			for k := 0; k < n; k++ {
 				e := c14Event{Op: pool[rng.Intn(len(pool))]}
 				if c.TTL == "40ms" && big < 3 && rng.Intn(4) == 0 {
